@@ -59,7 +59,12 @@ def gen(rng, tier, shard, nshards):
             n = rng.randint(1, 64)
             fd = {"size": rng.choice([0, rng.randint(0, 64), n]),
                   "sigs": [F.rand_sig(rng, "s%d" % j, n, allow_float=False) for j in range(rng.randint(0, 6))]}
-            yield {"op": "dlc", "c": {"f": fd, "strategy": rng.choice(["max", "force"])}}
+            # the frame stands in a matrix among other frames (each frame's length is its own business)
+            def other():
+                m = rng.randint(1, 64)
+                return {"size": rng.choice([0, rng.randint(0, 64), m]), "sigs": [F.rand_sig(rng, "o%d" % j, m, allow_float=False) for j in range(rng.randint(0, 3))]}
+            yield {"op": "dlc", "c": {"f": fd, "strategy": rng.choice(["max", "force"]),
+                                      "before": [other() for _ in range(rng.choice([0, 0, 1, 2]))], "after": [other() for _ in range(rng.choice([0, 0, 1]))]}}
         else:
             order = rng.random() < 0.5
             fd = gen_frame(rng, True, maxn=6, order=order, sizes=[1, 2, 3, 4, 8, 8, 8, 12, 16])
@@ -147,7 +152,14 @@ def observe(case):
         return [sig5(s) for s in fr.signals]
     if op == "dlc":
         db = cm.CanMatrix()
+        k = 0
+        for od in c.get("before", []):
+            k += 1
+            db.add_frame(F.mkframe(od, name="O%d" % k, arbid=0x700 + k))
         db.add_frame(fr)
+        for od in c.get("after", []):
+            k += 1
+            db.add_frame(F.mkframe(od, name="O%d" % k, arbid=0x700 + k))
         db.recalc_dlc(c["strategy"])
         return fr.size
     if op == "compress":
